@@ -345,3 +345,21 @@ def sub_sites(prog, crate="abyssiniandb"):
                         continue
                     cn = cn or Canon(prog, fn)
                     yield fn, b, s, cn.op(s["rhs"]["a"], b), cn.op(s["rhs"]["b"], b)
+
+
+def lt_facts(prog, fn):
+    """[(switch block, target block, X, Y)]: on entering `target` from that switch, X < Y is known.
+    `X < Y` true edge, `X >= Y` false edge, `Y > X` true edge, `Y <= X` false edge."""
+    out = []
+    for (sb, t_true, t_false, (op, X, Y)) in conditions(prog, fn):
+        if Y is None or t_true == t_false:
+            continue
+        if op == "Lt":
+            out.append((sb, t_true, X, Y))
+        elif op == "Ge":
+            out.append((sb, t_false, X, Y))
+        elif op == "Gt":
+            out.append((sb, t_true, Y, X))
+        elif op == "Le":
+            out.append((sb, t_false, Y, X))
+    return out
